@@ -109,6 +109,17 @@ enum {
     ABTI_VERIF_C_RANK_INSERT_MIDDLE,
     ABTI_VERIF_C_RANK_INSERT_TAIL,
     ABTI_VERIF_C_RANK_GAP_REUSED,
+    /* context switches (abtd_fcontext.h wrappers) */
+    ABTI_VERIF_C_CTX_SWITCH,
+    ABTI_VERIF_C_CTX_START_SWITCH,
+    ABTI_VERIF_C_CTX_JUMP,
+    ABTI_VERIF_C_CTX_START_JUMP,
+    ABTI_VERIF_C_CTX_SWITCH_CALL,
+    ABTI_VERIF_C_CTX_START_SWITCH_CALL,
+    ABTI_VERIF_C_CTX_JUMP_CALL,
+    ABTI_VERIF_C_CTX_START_JUMP_CALL,
+    ABTI_VERIF_P_CTX_BEFORE_SWITCH, /* old context marked, not yet saved */
+    ABTI_VERIF_P_CREATE_AFTER_PUSH, /* new ULT is in its pool, handle not set */
     ABTI_VERIF_NUM_POINTS = 128
 };
 
